@@ -68,6 +68,7 @@ type c06Shape struct {
 	nACS    int
 	attrSvc int // 0 absent, 1 non-default, 2 default
 	enc     bool
+	respLoc bool // every ACS endpoint also carries a ResponseLocation (which plays no part in Web SSO)
 }
 
 func c06Shapes() []c06Shape {
@@ -75,9 +76,12 @@ func c06Shapes() []c06Shape {
 	for _, n := range []int{2, 1, 3} {
 		for as := 0; as < 3; as++ {
 			for _, e := range []bool{false, true} {
-				out = append(out, c06Shape{fmt.Sprintf("acs%d/attrsvc%d/enc=%v", n, as, e), n, as, e})
+				out = append(out, c06Shape{fmt.Sprintf("acs%d/attrsvc%d/enc=%v", n, as, e), n, as, e, false})
 			}
 		}
+	}
+	for _, n := range []int{1, 3} {
+		out = append(out, c06Shape{fmt.Sprintf("acs%d/attrsvc0/enc=%v/with-ResponseLocation", n, n == 3), n, 0, n == 3, true})
 	}
 	return out
 }
@@ -91,6 +95,12 @@ func (s c06Shape) metadata() *saml.EntityDescriptor {
 	}
 	if s.nACS >= 3 {
 		sd.AssertionConsumerServices = append(sd.AssertionConsumerServices, saml.IndexedEndpoint{Binding: saml.HTTPArtifactBinding, Location: locL3reg, Index: 3})
+	}
+	if s.respLoc {
+		for i := range sd.AssertionConsumerServices {
+			rl := fmt.Sprintf("https://sp.example.com/saml/elsewhere%d", i)
+			sd.AssertionConsumerServices[i].ResponseLocation = &rl
+		}
 	}
 	if s.attrSvc > 0 {
 		as := saml.AttributeConsumingService{Index: 1, RequestedAttributes: []saml.RequestedAttribute{
@@ -123,7 +133,7 @@ func init() {
 	Register(&Check{
 		ID:     "C06",
 		Engine: "lattice",
-		Rule: "deviation-bounded product over {request kind: ACS by URL / by index / index and a different registered URL / neither / IdP-initiated / URL or index of a registered non-POST endpoint} x 5 session shapes x 18 SP metadata shapes (1-3 ACS endpoints, AttributeConsumingService absent/non-default/default, with/without encryption key) x IdP configuration {Key RSA, Signer RSA, Signer ECDSA} x 9 signature methods x intermediates x clock position relative to the request's IssueInstant x tolerance settings; " +
+		Rule: "deviation-bounded product over {request kind: ACS by URL / by index / index and a different registered URL / neither / IdP-initiated / URL or index of a registered non-POST endpoint} x 5 session shapes x 18 SP metadata shapes (1-3 ACS endpoints, AttributeConsumingService absent/non-default/default, with/without encryption key) x IdP configuration {Key RSA, Signer RSA, Signer ECDSA, Signer RSA with a stale Key left in place} x 9 signature methods x intermediates x clock position relative to the request's IssueInstant x tolerance settings; " +
 			"every emitted page is decoded by an independent decoder (HTML tokenizer, base64, etree, own field extraction, own decryption) and both signatures are verified with a fresh goxmldsig context rooted in the IdP certificate only; a second response for a decoy session is issued first on the same IdP object. non-trivial = at least one axis off default",
 		Bounds: func(tier string) string {
 			if tier == "thorough" {
@@ -145,7 +155,7 @@ func runC06(c *core.Ctx) {
 	decoys := c06Sessions("DECOY")
 	shapes := c06Shapes()
 	reqKinds := []string{"by-url", "by-index", "index-and-other-url", "neither", "idp-initiated", "by-url-of-non-post-endpoint", "by-index-of-non-post-endpoint"}
-	idpConfs := []string{"key-rsa", "signer-rsa", "signer-ecdsa"}
+	idpConfs := []string{"key-rsa", "signer-rsa", "signer-ecdsa", "signer-rsa+stale-key"}
 	clocks := []time.Duration{0, 60 * time.Second, -30 * time.Second} // now - request IssueInstant
 	tols := []tol{{"default", 90 * time.Second, 180 * time.Second}, {"d30s-s5s", 30 * time.Second, 5 * time.Second}}
 	fields := []lattice.Field{
@@ -188,6 +198,9 @@ func runC06(c *core.Ctx) {
 			case "signer-rsa":
 				idpKey = "idp1"
 				idp.Signer, idp.Key = samlgen.Key("idp1").Key, nil
+			case "signer-rsa+stale-key": // an external signer is configured and an old private key was left in Key: the signer signs
+				idpKey = "idp1"
+				idp.Signer, idp.Key = samlgen.Key("idp1").Key, samlgen.Key("idp2").Key
 			case "signer-ecdsa":
 				idpKey = "idpec"
 				idp.Certificate = samlgen.Key("idpec").Cert
